@@ -730,6 +730,7 @@ func main() {
 	}
 	p("]\n\n")
 	p("%s", orderFacts(repo)) // C12 (order_facts.go)
+	p("%s", concFacts(listFiles)) // C20 (conc_facts.go)
 	p("end Ioc.Facts\n")
 	fmt.Print(b.String())
 }
